@@ -15,12 +15,12 @@ pub struct LShape {
     pub inner: Vec<LShape>,
 }
 
-fn one_shape(l: &L, cur: Dims, first: bool, in_block: bool) -> Result<LShape, String> {
+fn one_shape(l: &L, cur: Dims, first: bool, _in_block: bool) -> Result<LShape, String> {
     let spatial_in = |cur: Dims| -> Result<(usize, usize, usize), String> {
         match cur {
             Dims::Chw(c, h, w) => Ok((c, h, w)),
             Dims::Flat(n) => {
-                if first && !in_block {
+                if first {
                     return Err("first layer is spatial but the network input is flat".into());
                 }
                 match isqrt_exact(n) {
